@@ -53,6 +53,22 @@ def run_vh(vh, args, timeout=600, cwd=None):
                (e.stderr or b"").decode() if isinstance(e.stderr, bytes) else (e.stderr or ""), True
 
 
+def crashed_in_repo(stderr):
+    """True if the harness process died of a Go panic / fatal error whose innermost non-runtime frame is code of the repository under test"""
+    if not stderr or not re.search(r'^(panic:|fatal error:)', stderr, re.M):
+        return False
+    # first goroutine block after the panic line
+    m = re.search(r'^goroutine \d+ \[[^\]]*\]:\n((?:.+\n?)*)', stderr, re.M)
+    if not m:
+        return False
+    files = re.findall(r'^\t(\S+\.go):\d+', m.group(1), re.M)
+    for f in files:
+        if "/go/src/" in f or "/golang" in f or f.startswith("runtime/") or "/usr/" in f:
+            continue           # runtime / standard library frames
+        return f.startswith(REPO + "/")
+    return False
+
+
 # ---------------------------------------------------------------- TLC
 
 TLC_JAR = "/opt/veriftools/tla/tla2tools.jar"
